@@ -190,6 +190,8 @@ pub trait DynSeq {
     fn ref_into_iter_box(&self) -> Box<dyn DynIter + '_>;
     fn into_iter_box(self: Box<Self>) -> Box<dyn DynIter>;
     fn clone_box(&self) -> Box<dyn DynSeq>;
+    /// `let mut d = donor.clone(); d.clone_from(self); d` (None when the donor has another type)
+    fn clone_from_into(&self, donor: &dyn DynSeq) -> Option<Box<dyn DynSeq>>;
     fn eq_dyn(&self, other: &dyn DynSeq) -> bool;
     fn ser(&self) -> Result<Vec<u8>, String>;
     fn de_same(&self, bytes: &[u8]) -> Result<Box<dyn DynSeq>, String>;
@@ -248,6 +250,12 @@ macro_rules! common_body {
         }
         fn clone_box(&self) -> Box<dyn DynSeq> {
             Box::new(self.clone())
+        }
+        fn clone_from_into(&self, donor: &dyn DynSeq) -> Option<Box<dyn DynSeq>> {
+            let d = donor.as_any().downcast_ref::<Self>()?;
+            let mut d = d.clone();
+            d.clone_from(self);
+            Some(Box::new(d))
         }
         fn eq_dyn(&self, other: &dyn DynSeq) -> bool {
             match other.as_any().downcast_ref::<Self>() {
